@@ -532,6 +532,22 @@ def map_models(I, st, caller, func, args, argtys, dest_ty):
                         I.store(s2, args[0], Agg("hashset", None, tuple(hs.fields) + (deref_all(I, s2, args[1]) if isinstance(args[1], Ref) else args[1],)))
                     outs.append(Outcome("return", z3.BoolVal(i is None), s2))
             return outs
+    m = re.match(r"^<&?BTreeMap<.*> as IntoIterator>::into_iter$", f)
+    if m and isinstance(deref_all(I, st, args[0]), Agg) and deref_all(I, st, args[0]).kind == "btreemap":
+        # (key, value) pairs in key order; abstract / string keys are ordered through their terms
+        mp = deref_all(I, st, args[0])
+        n = len(mp.fields)
+        import itertools
+        kt = lambda k_: k_.term if isinstance(k_, Abs) else k_
+        outs = []
+        for perm in itertools.permutations(range(n)):
+            ks = [kt(deref_all(I, st, mp.fields[p].fields[0])) for p in perm]
+            cond = z3.And([ks[j] < ks[j + 1] for j in range(n - 1)]) if n > 1 else z3.BoolVal(True)
+            if I.feasible(st, cond):
+                s2 = st.fork()
+                s2.assume(cond)
+                outs.append(Outcome("return", mk_iter(Agg("vec", None, tuple(Agg("tuple", None, (mp.fields[p].fields[0], mp.fields[p].fields[1])) for p in perm)), 0, "own"), s2))
+        return outs
     m = re.match(r"^BTreeMap::<.*>::(into_values|into_keys)$", f)
     if m:
         mp = args[0]
